@@ -110,6 +110,23 @@ fn jobs(set: &str) -> Vec<Job> {
     for (cn, c) in &comps {
         v.push(Job { name: format!("kinds-{cn}-one"), logical: kinds_logical(), comp: *c, packaging: Packaging::OneFile, concat: false });
     }
+    // more than 256 / 1024 blobs in one cluster (blob index above one byte, info table above 4 KiB),
+    // raw and compressed
+    for (cn, c) in &comps {
+        if !thorough && (*cn == "lzma" || *cn == "lz4") {
+            continue;
+        }
+        v.push(Job { name: format!("many-{cn}-one"), logical: shape("many"), comp: *c, packaging: Packaging::OneFile, concat: false });
+        if *cn != "none" {
+            let mut l = shape("many");
+            l.name = "manyc".into();
+            l.contents.truncate(600);
+            for it in l.contents.iter_mut() {
+                it.hint = Hint::Yes;
+            }
+            v.push(Job { name: format!("manyc-{cn}-one"), logical: l, comp: *c, packaging: Packaging::OneFile, concat: false });
+        }
+    }
     // content family (as C01/C16): short insertion sequences x compression
     let lens: &[usize] = if thorough { &[0, 1, 255, 256, 65_535, 65_536] } else { &[0, 1, 256, 65_536] };
     let mut syms = vec![];
@@ -149,7 +166,7 @@ fn jobs(set: &str) -> Vec<Job> {
     }
     for prefix in [0usize, 1, 3, 31] {
         for store in [StoreKind::Plain, StoreKind::Indexed] {
-            let alpha: Vec<Vec<u8>> = vec![vec![], vec![0], b"a".to_vec(), vec![0xff; prefix + 1], vec![b'q'; 300], b"ab\0".to_vec()];
+            let alpha: Vec<Vec<u8>> = vec![vec![], vec![0], b"a".to_vec(), vec![0xff; prefix + 1], vec![b'q'; 300], b"ab\0".to_vec(), vec![b'r'; 255], (0..256u32).map(|i| i as u8).collect(), (0..257u32).map(|i| (i * 7) as u8).collect(), (0..65_536u32).map(|i| (i * 13) as u8).collect()];
             for m in multisets(alpha.len(), 2) {
                 dirs.push(one_col(PropSpec::A { prefix, store: 0 }, vec![store], m.iter().map(|&i| Val::A(alpha[i].clone())).collect()));
             }
